@@ -104,6 +104,7 @@ of_mod2sparse* of_create_pchck_matrix_rfc5170_compliant (UINT32		nb_rows,
 				do
 				{
 					i = t + of_rfc5170_rand (left_degree * nbDataCols - t);
+					OF_VERIF_EVENT ("pchk_draw", pchkMatrix, i, t, 0, 0);
 				}
 				while (of_mod2sparse_find (pchkMatrix, u[i], j));
 				of_mod2sparse_insert (pchkMatrix, u[i], j);
@@ -122,6 +123,7 @@ of_mod2sparse* of_create_pchck_matrix_rfc5170_compliant (UINT32		nb_rows,
 				do
 				{
 					i = of_rfc5170_rand (nb_rows);
+					OF_VERIF_EVENT ("pchk_draw", pchkMatrix, i, 0, 1, 0);
 				}
 				while (of_mod2sparse_find (pchkMatrix, i, j));
 				of_mod2sparse_insert (pchkMatrix, i, j);
@@ -142,6 +144,7 @@ of_mod2sparse* of_create_pchck_matrix_rfc5170_compliant (UINT32		nb_rows,
 		if (of_mod2sparse_at_end (e))
 		{
 			j = (of_rfc5170_rand (nbDataCols)) + skipCols;
+			OF_VERIF_EVENT ("pchk_draw", pchkMatrix, j, skipCols, 2, 0);
 			e = of_mod2sparse_insert (pchkMatrix, i, j);
 			OF_VERIF_EVENT ("pchk_insert", pchkMatrix, i, j, 2, 0);
 			added ++;
@@ -152,6 +155,7 @@ of_mod2sparse* of_create_pchck_matrix_rfc5170_compliant (UINT32		nb_rows,
 			do
 			{
 				j = (of_rfc5170_rand (nbDataCols)) + skipCols;
+				OF_VERIF_EVENT ("pchk_draw", pchkMatrix, j, skipCols, 3, 0);
 			}
 			while (j == of_mod2sparse_col (e));
 			of_mod2sparse_insert (pchkMatrix, i, j);
